@@ -50,7 +50,7 @@ Init ==
   /\ slot = <<>> /\ inits = {} /\ born = {} /\ finished = {}
   /\ prims = <<>> /\ pres = <<>> /\ posts = <<>> /\ led = <<>> /\ viol = {}
   /\ stat = [steps |-> 0, iters |-> 0, delivered |-> 0, tracks |-> 0, errors |-> 0, events |-> 0,
-             failures |-> 0, inplace |-> 0, runs |-> 0, tallies |-> 0]
+             failures |-> 0, inplace |-> 0, runs |-> 0, tallies |-> 0, kills |-> 0]
   /\ lastgen = 0 /\ hang = FALSE /\ tal = TalZero
 
 \* per-state sanity that must hold whatever the log says
@@ -244,6 +244,22 @@ TTally ==
   /\ Bump("tallies", 1)
   /\ UNCHANGED <<pc, cfg, zero, slot, inits, born, finished, prims, pres, posts, led, lastgen, hang, tal>>
 
+\* Stepper::kill_active(): every active track is marked errored (to be killed, with its energy
+\* deposited, by the tracking cut of the next step); identities and energies are untouched
+TKillActive ==
+  /\ pc = "idle" /\ Rec.e = "KillActive"
+  /\ Mark(IF /\ {Rec.changed[k].slot : k \in DOMAIN Rec.changed} = ActiveSlots(slot)
+             /\ \A k \in DOMAIN Rec.changed :
+                   LET c == Rec.changed[k] IN
+                   /\ IsActive(slot[c.slot]) /\ c.st = "errored"
+                   /\ Ident(c) = Ident(slot[c.slot]) /\ c.ns = slot[c.slot].ns
+          THEN {} ELSE {"C02.KillActiveMarksErrored"})
+  /\ slot' = [i \in DOMAIN slot |->
+                IF \E k \in DOMAIN Rec.changed : Rec.changed[k].slot = i
+                THEN [f \in DOMAIN slot[i] |-> IF f = "st" THEN "errored" ELSE slot[i][f]] ELSE slot[i]]
+  /\ Bump("kills", 1)
+  /\ UNCHANGED <<pc, cfg, zero, inits, born, finished, prims, pres, posts, led, lastgen, hang, tal>>
+
 \* scripted replay only: the code asked for an interaction the script (the Impl model) did not foresee
 TOffScript ==
   /\ pc = "idle" /\ Rec.e = "OffScript" /\ Mark({"DRIFT.OffScript"})
@@ -262,7 +278,7 @@ THang ==
 Next ==
   /\ l <= N /\ l' = l + 1
   /\ \/ TConfig \/ TRanks \/ TReseed \/ TInsert \/ TGen \/ TStart \/ TPre \/ TPost \/ TDeliver
-     \/ TEnd \/ TResult \/ TError \/ TReset \/ TEventsDone \/ THang \/ TTally \/ TClose \/ TOffScript
+     \/ TEnd \/ TResult \/ TError \/ TReset \/ TEventsDone \/ THang \/ TTally \/ TClose \/ TOffScript \/ TKillActive
 Spec == Init /\ [][Next]_vars
 
 Accepted ==
